@@ -378,6 +378,31 @@ def tf(ctx):
                 want = [('line', nn)]
             it = symx.Interp(dom, lk)
             lv = it.run(fn, args)
+            if fname == 'a_tf_zero' and 1 < len(lv) <= 8:
+                # several paths (guards around the clearing): on each of them a delay line may stay uncleared only when the path
+                # condition says it is empty
+                zprobs = []
+                for lf in lv:
+                    z = [c for c in lf.calls if c[0] == 'a_zero' or c[0].startswith('llvm.memset')]
+                    got = []
+                    for c in z:
+                        p = c[1][0]
+                        size = c[1][1] if c[0] == 'a_zero' else c[1][2]
+                        got.append((p.base if isinstance(p, Ptr) else None, sp.sympify(size) / 8))
+                    for w in want:
+                        if any(g[0] == w[0] and alg.is_zero(g[1] - w[1]) for g in got):
+                            continue
+                        empty = any(isinstance(c_, alg.Cond) and c_.rel() == '==' and ((sp.sympify(c_.a) == w[1] and c_.b == 0) or (sp.sympify(c_.b) == w[1] and c_.a == 0)) for c_ in lf.pc)
+                        if not empty:
+                            zprobs.append('on the path %s the delay line %s[0..%s) is not cleared' % (lf.pc, w[0], w[1]))
+                    for g in got:
+                        if not any(g[0] == w[0] and alg.is_zero(g[1] - w[1]) for w in want):
+                            zprobs.append('clears %s[0..%s)' % g)
+                if zprobs:
+                    rep.bad('G1', fname, '; '.join(sorted(set(zprobs))[:2]), loc=loc, key='%s: zero extent' % fname)
+                else:
+                    rep.ok('G1', fname, 'on all %d paths every non-empty delay line is cleared over exactly its length' % len(lv), loc=loc)
+                continue
             if len(lv) != 1:
                 raise Unsupported('%d paths' % len(lv))
             # the fields the setter is responsible for, and only those
